@@ -38,7 +38,9 @@ def call_impl(metric, ref, pred, r, ps):
         return "ZeroDivisionError"
 
 
-def one_case(ctx, ref, pred, r, ps, metric, src):
+def one_case(ctx, ref, pred, r, ps, metric, src, before=None):
+    """before: earlier states [ref, pred] of the same two array objects, scored with the same call before in-place edits
+    (recorded so that a replay can rebuild the history on one pair of array objects)"""
     flat_r, flat_p = ref.ravel(), pred.ravel()
     if r is None:
         X = set(np.flatnonzero(flat_r != 0).tolist())
@@ -50,6 +52,8 @@ def one_case(ctx, ref, pred, r, ps, metric, src):
         Y = set(np.flatnonzero(np.isin(flat_p, psl)).tolist())
     inp = {"shape": list(ref.shape), "dtype": str(ref.dtype), "ref": gen.arr_json(ref.astype(np.int64)),
            "pred": gen.arr_json(pred.astype(np.int64)), "r": r, "ps": ps, "m": metric, "src": src}
+    if before:
+        inp["before"] = [[gen.arr_json(a.astype(np.int64)), gen.arr_json(b.astype(np.int64))] for a, b in before]
     nontriv = bool(X) and bool(Y) and X != Y
     ctx.case(inp, nontriv, sample=inp if ref.size <= 16 else None)
     ctx.count(f"metric.{metric}")
@@ -242,6 +246,30 @@ def history_cases(ctx, n):
         ctx.count("in_place_edit_histories")
 
 
+def repeat_cases(ctx, n):
+    """the very same call (same metric, same array objects, same labels) repeated with an in-place edit of one array in
+    between and nothing else in between: the second answer must be that of the edited arrays"""
+    rng = ctx.rng
+    for i in range(n):
+        shape = gen.rand_shape(rng, hi=7)
+        ref = gen.instance_map(rng, shape, rng.randint(1, 3), dtype=np.uint8)
+        pred = gen.instance_map(rng, shape, rng.randint(1, 3), dtype=np.uint8)
+        metric = ("IOU", "DSC", "RVD")[i % 3]
+        r, ps = (None, None) if i % 4 == 3 else (rng.randint(1, 3), [rng.randint(1, 3)])
+        before = []
+        for step in range(3):
+            one_case(ctx, ref, pred, r if r is not None else 1, ps if ps is not None else [1], metric, f"repeat{i}.{step}", before=list(before))
+            before.append((ref.copy(), pred.copy()))
+            tgt = pred if step % 2 == 0 else ref
+            if r is not None and (tgt == (ps[0] if tgt is pred else r)).any() and rng.random() < 0.6:
+                lab = ps[0] if tgt is pred else r
+                idx = np.argwhere(tgt == lab)
+                tgt[tuple(idx[rng.randrange(len(idx))])] = 0          # remove one voxel of the scored instance
+            else:
+                gen.put_object(rng, tgt, rng.randint(0, 3), kind=rng.choice(["box", "voxel", "line"]))
+        ctx.count("same_call_repeated_after_in_place_edit")
+
+
 def exhaustive_cases(ctx, shape):
     arrs = list(gen.all_small_arrays(shape))
     sels = [(1, 1), (1, [1, 2]), (2, [1]), (1, 2), (2, [2, 1]), (3, [3])]
@@ -323,6 +351,7 @@ def run(ctx):
     random_cases(ctx, ctx.scale(400, 4000))
     sparse_list_cases(ctx, ctx.scale(40, 400))
     history_cases(ctx, ctx.scale(60, 600))
+    repeat_cases(ctx, ctx.scale(45, 450))
     rng = ctx.rng
     for i in range(ctx.scale(25, 250)):
         shape = gen.rand_shape(rng, ndim=rng.choice([2, 3]), lo=3, hi=8)
@@ -362,4 +391,15 @@ def replay(ctx, rec):
     dt = np.dtype(inp.get("dtype", "int64"))
     ref = np.array(inp["ref"]).reshape(inp["shape"]).astype(dt)
     pred = np.array(inp["pred"]).reshape(inp["shape"]).astype(dt)
+    if inp.get("before"):
+        # rebuild the history on one pair of array objects: same call, in-place edits in between
+        a, b = ref.copy(), pred.copy()
+        for ra, pa in inp["before"]:
+            a[...] = np.array(ra).reshape(inp["shape"]).astype(dt)
+            b[...] = np.array(pa).reshape(inp["shape"]).astype(dt)
+            call_impl(inp["m"], a, b, inp.get("r"), inp.get("ps"))
+        a[...] = ref
+        b[...] = pred
+        one_case(ctx, a, b, inp.get("r"), inp.get("ps"), inp["m"], "replay")
+        return
     one_case(ctx, ref, pred, inp.get("r"), inp.get("ps"), inp["m"], "replay")
